@@ -340,3 +340,53 @@ def int_of(body, op):
     if c is None:
         return None
     return c.get('int')
+
+
+def _place_locals(p):
+    yield p['local']
+    for e in p['proj']:
+        if e['k'] == 'index':
+            yield e['local']
+
+
+def _op_locals(o):
+    if o and o.get('k') in ('copy', 'move'):
+        yield from _place_locals(o['place'])
+
+
+def stmt_locals_used(s):
+    """locals read by a statement (the destination local is not a use unless projected through)"""
+    if s['k'] != 'assign':
+        return
+    rv = s['rv']
+    for k in ('op', 'l', 'r', 'arg'):
+        if isinstance(rv.get(k), dict):
+            yield from _op_locals(rv[k])
+    if 'place' in rv:
+        yield from _place_locals(rv['place'])
+    for f in rv.get('fields', []):
+        yield from _op_locals(f)
+    if s['dest']['proj']:
+        yield s['dest']['local']
+
+
+def term_locals_used(t):
+    k = t['k']
+    if k == 'call':
+        for a in t['args']:
+            yield from _op_locals(a)
+        if 'func_place' in t:
+            yield from _place_locals(t['func_place'])
+    elif k == 'switch':
+        yield from _op_locals(t['discr'])
+    elif k == 'drop':
+        yield from _place_locals(t['place'])
+    elif k == 'assert':
+        yield from _op_locals(t['cond'])
+
+
+def block_uses_local(b, bb, l):
+    for s in b.stmts(bb):
+        if l in set(stmt_locals_used(s)):
+            return True
+    return l in set(term_locals_used(b.term(bb)))
